@@ -786,8 +786,9 @@ def _match_impl(prog, T, trait, meth, allow_any_trait=False, trait_raw=None):
                 return s
             best = max(score(c) for c in c2)
             c3 = [c for c in c2 if score(c) == best]
-            if len(c3) >= 1:
-                c2 = c3
+            if best == 0 and qual[0] in ('std', 'core', 'alloc', 'io', 'regex', 'serde_json', 'serde_yaml', 'toml', 'xml'):
+                c3 = []         # a foreign type that merely shares its last segment with local ones
+            c2 = c3
         if len(c2) > 1:
             # same crate preferred; else first by name order
             c2 = sorted(c2, key=lambda c: c[0].name)
@@ -813,6 +814,14 @@ def _resolve(prog, name):
                 return ('closure_call',)
             return ('dyn', info)
         f = _match_impl(prog, T, trait, rest, trait_raw=info.get('trait_raw'))
+        if f is None and tl == 'Into' and rest == 'into' and info.get('trait_raw') and re.match(r'^Into<(std::\w+::)?(Box|Rc|Arc|Option)<', info['trait_raw']):
+            inner_m = re.match(r'^Into<(?:std::\w+::)?(Box|Rc|Arc|Option)<(.*)>>$', info['trait_raw'], re.S)
+            if inner_m and type_sig(inner_m.group(2)).split('::')[-1] == type_sig(info['T_raw']).split('::')[-1]:
+                wrap_opt = inner_m.group(1) == 'Option'
+
+                def into_wrapper(ctx, a, callee, _o=wrap_opt):
+                    return some(a[0]) if _o else a[0]
+                return ('builtin', into_wrapper, norm)
         if f is None and tl == 'TryInto' and rest == 'try_into' and info.get('trait_raw') and '<' in info['trait_raw']:
             tr = info['trait_raw']
             Y = tr[tr.index('<') + 1:tr.rindex('>')]
@@ -1012,8 +1021,24 @@ def compile_setdiscr(prog, f, place, n):
 
 
 def compile_assign(prog, f, place, rv):
-    r = compile_rvalue(prog, f, rv)
     l, proj = parse_place(place)
+    rvs = rv.strip()
+    if not proj and f.types.get(l, '').startswith('std::boxed::Box<') and re.match(r'^(no_retag )?copy \(', rvs) and '(*_' in rvs:
+        # `_19 = copy (*_5)` with _19: Box<T>: the compiler copies the *pointer* to project through it
+        # (`&mut (*_19).field`). Box is transparent here, so keep the identity: alias the place instead of copying.
+        src = rvs.split('copy ', 1)[1]
+        sl, sproj = parse_place(src)
+        mk = compile_mutref(prog, f, src)
+        rd = compile_read(prog, f, src)
+
+        def st_box(ctx, L):
+            base = L[sl]
+            if type(base) is Ref:
+                L[l] = mk(ctx, L)
+            else:
+                L[l] = rd(ctx, L)
+        return st_box
+    r = compile_rvalue(prog, f, rv)
     if not proj:
         def st(ctx, L):
             L[l] = r(ctx, L)
